@@ -37,17 +37,15 @@ Proof.
 Qed.
 
 (* ---- domains ---- *)
-(* detection items inside the modelled fragment of the modifier machinery:
-   a key with the `re` modifier has string values only (finding re-nonstring otherwise), and the
-   UTF-16 re-encoding modifiers meet ASCII text only *)
+(* detection items inside the modelled fragment of the modifier machinery: the UTF-16 re-encoding
+   modifiers (wide, utf16, utf16be) meet ASCII text only *)
 Definition val_list (v : yv) : list yv := match v with YList l => l | x => [x] end.
 Definition item_ok (k v : yv) : bool :=
   match k with
   | YStr s =>
     let ids := tl (split c_pipe s) in
-    (if in_strs s_re ids then forallb is_str (val_list v) else true) &&
-    (if existsb (fun i => in_strs i [s_wide; s_utf16; s_utf16be]) ids
-     then forallb (fun x => match x with YStr t => is_ascii t | _ => true end) (val_list v) else true)
+    if existsb (fun i => in_strs i [s_wide; s_utf16; s_utf16be]) ids
+    then forallb (fun x => match x with YStr t => is_ascii t | _ => true end) (val_list v) else true
   | _ => true
   end.
 Fixpoint def_ok (d : yv) : bool :=
